@@ -51,13 +51,30 @@
                  hidden oracle parameters of a callee (CORRELATION's two pylab_rms_flat results) are hidden parameters of the caller;
                  [SCall1] is [d = f(args)] for a callee that returns exactly one value (a callee that falls off its end gives None; a
                  tuple value is [Unsupported]: a name bound to the tuple a call returns is translated to one slot per component);
-     exceptions: NotImplementedError (ar2rc). *)
-Require Import Spectrum.Theory.Ops Spectrum.Theory.Vec.
+     exceptions: NotImplementedError (ar2rc).
+
+   Added for the FFT-based kernels arma2psd / minvar / CORRELOGRAMPSD / speriodogram (T7):
+     transforms: [EFft a n w] is numpy.fft.fft(a[, n]) = [dft (tw m) m a] of Theory/Dft.v (the array cropped / zero-padded to the
+                 m = n points, m = len(a) when n is omitted; m <= 0 is numpy's ValueError), [ERfft] is numpy.fft.rfft = the first
+                 m/2+1 bins of the same transform (the entries are transformed as they are: the dtype tag is not read).  The twiddle
+                 characters are NOT computed: [w] must evaluate to the value [VTw tw], [tw m : Z -> F] standing for
+                 a |-> exp(-2 pi i a / m); the translator makes it a hidden last parameter of every program that calls fft / rfft
+                 (like the pylab_rms_flat oracle of CORRELATION), so [run] keeps its signature.  Theorems quantify over [tw];
+                 the exact runs pass tw1 / tw2 / tw4 of Instances/QcCTw.v, the binary64 runs a table;
+     vectors   : numpy.fft.fftshift ([EFftShift]), the builtin max of an array ([EMaxArr]: the first largest entry, decided by the
+                 sign test of the difference as every ordering of the IR; the empty array is ValueError), numpy.mean of a 1-D array
+                 ([EMean]: sumL / len, axis 0 or -1 only), x.ndim ([ENdim]), type(x) == int ([EIsInt]);
+                 abs(v)**2, numpy.real, * and / between arrays and scalars were elementwise already;
+     stores    : [SStoreSlice x lo hi step e] is x[lo:hi:step] = e: the positions of the Python slice (negative steps, clamping) are
+                 written in order from an array of the same length, or from one value (an array of length 1 or a scalar: numpy
+                 broadcasts it, also into an empty slice); any other length is ValueError;
+     exceptions: SpectrumError (an exception class of spectrum/errors.py: errors.is_positive_integer). *)
+Require Import Spectrum.Theory.Ops Spectrum.Theory.Vec Spectrum.Theory.Dft.
 From Coq Require Import String.
 From Coq Require Export ZArith List.
 Local Open Scope Z_scope.
 
-Inductive exc := ValueError | AssertionError | IndexError | ZeroDivisionError | TypeError | UnboundLocal | Unsupported | NotImplementedError.
+Inductive exc := ValueError | AssertionError | IndexError | ZeroDivisionError | TypeError | UnboundLocal | Unsupported | NotImplementedError | SpectrumError.
 
 Inductive binop := BAdd | BSub | BMul | BDiv | BFloorDiv | BMod.
 Inductive cmpop := CEq | CNe | CLt | CLe | CGt | CGe.
@@ -98,7 +115,14 @@ Inductive expr :=
 | EZeros2 (n m : expr) (isreal : bool)          (* numpy.zeros((n, m), dtype=float|complex): a matrix *)
 | EIndex2 (a i j : expr)                        (* a[i, j] *)
 | ERowSlice (a i : expr) (lo hi step : option expr)   (* a[i, lo:hi:step] *)
-| EColSlice (a : expr) (lo hi step : option expr) (j : expr).   (* a[lo:hi:step, j] *)
+| EColSlice (a : expr) (lo hi step : option expr) (j : expr)    (* a[lo:hi:step, j] *)
+| EFft (a : expr) (n : option expr) (w : expr)  (* numpy.fft.fft(a[, n]); w: the hidden twiddle parameter *)
+| ERfft (a : expr) (n : option expr) (w : expr) (* numpy.fft.rfft(a[, n]) *)
+| EFftShift (a : expr)                          (* numpy.fft.fftshift(a) on a 1-D array *)
+| EMaxArr (a : expr)                            (* builtin max(a) over a 1-D array *)
+| EMean (a : expr) (axis : option expr)         (* numpy.mean(a[, axis=0|-1]) on a 1-D array *)
+| EIsInt (a : expr)                             (* type(a) == int *)
+| ENdim (a : expr).                             (* a.ndim *)
 
 Inductive stmt :=
 | SSkip
@@ -120,8 +144,9 @@ Inductive stmt :=
 | SStoreCol (x : nat) (j e : expr)    (* x[:, j] = e on a matrix *)
 | SCall (dsts : list nat) (nparams : nat) (defaults : list (option expr)) (nslots : nat) (body : stmt) (args : list (option expr))
                                       (* [d0, d1, ..] = f(args): the callee's program inlined as a term; fresh store *)
-| SCall1 (dst : nat) (nparams : nat) (defaults : list (option expr)) (nslots : nat) (body : stmt) (args : list (option expr)).
+| SCall1 (dst : nat) (nparams : nat) (defaults : list (option expr)) (nslots : nat) (body : stmt) (args : list (option expr))
                                       (* d = f(args) for a callee that returns ONE value (r = CORRELATION(X, maxlags=order, norm=norm)) *)
+| SStoreSlice (x : nat) (lo hi step : option expr) (e : expr).   (* x[lo:hi:step] = e *)
 
 Record program := mkProgram {
   p_name : string;
@@ -141,7 +166,8 @@ Inductive value :=
 | VArr (isreal : bool) (l : list F)
 | VCrit (last : option F)
 | VUnbound
-| VMat (isreal : bool) (ncols : nat) (rows : list (list F)).   (* every row has ncols entries *)
+| VMat (isreal : bool) (ncols : nat) (rows : list (list F))    (* every row has ncols entries *)
+| VTw (tw : nat -> Z -> F).           (* the twiddle characters: tw m a stands for exp(-2 pi i a / m) (hidden parameter of fft / rfft) *)
 
 Definition store := list value.
 Definition R (A : Type) := (A + exc)%type.
@@ -291,6 +317,23 @@ Fixpoint mset_col (rows : list (list F)) (j : nat) (vs : list F) : list (list F)
   | _, _ => []
   end.
 
+(* vectors (T7) *)
+Definition fft_points (len : nat) (n : option Z) : R nat :=
+  match n with
+  | None => if Nat.eqb len 0 then err ValueError else ok len
+  | Some k => if (k <=? 0)%Z then err ValueError else ok (Z.to_nat k)
+  end.
+Definition fftshiftL (t : list F) : list F :=
+  let n := length t in
+  mk n (fun j => if (j <? n / 2)%nat then nthF t (j + (n - n / 2)) else nthF t (j - n / 2)).
+(* Python's max() over a sequence: x replaces the running maximum m only when x > m, i.e. not (x - m <= 0) *)
+Definition maxL (l : list F) : R F :=
+  match l with [] => err ValueError | x :: t => ok (fold_left (fun m y => if le0 (y - m) then m else y) t x) end.
+Definition meanL (l : list F) : F := sumL l / ofnat (length l).
+(* x[positions] = vs, in order *)
+Fixpoint store_at (l : list F) (ps : list Z) (vs : list F) : list F :=
+  match ps, vs with p :: pt, v :: vt => store_at (updF l (Z.to_nat p) v) pt vt | _, _ => l end.
+
 Definition eval_opt (ev : expr -> R value) (o : option expr) : R (option Z) :=
   match o with None => ok None | Some e => v <- ev e ;; n <- asZ v ;; ok (Some n) end.
 
@@ -393,6 +436,25 @@ Fixpoint eval (st : store) (e : expr) {struct e} : R value :=
       let s := match s with None => 1%Z | Some v => v end in
       if (s =? 0)%Z then err ValueError
       else ok (VArr r (map (fun p => nthF (mcol rows kj) (Z.to_nat p)) (slice_positions (length rows) l h s)))
+  | EFft a n w => va <- eval st a ;; rl <- asArr va ;; k <- eval_opt (eval st) n ;; vw <- eval st w ;;
+      match vw with
+      | VTw tw => m <- fft_points (length (snd rl)) k ;; ok (VArr false (dft (tw m) m (snd rl)))
+      | _ => err TypeError
+      end
+  | ERfft a n w => va <- eval st a ;; rl <- asArr va ;; k <- eval_opt (eval st) n ;; vw <- eval st w ;;
+      match vw with
+      | VTw tw => m <- fft_points (length (snd rl)) k ;; ok (VArr false (rdft (tw m) m (snd rl)))
+      | _ => err TypeError
+      end
+  | EFftShift a => va <- eval st a ;; rl <- asArr va ;; ok (VArr (fst rl) (fftshiftL (snd rl)))
+  | EMaxArr a => va <- eval st a ;; rl <- asArr va ;; z <- maxL (snd rl) ;; ok (VF z)
+  | EMean a ax => va <- eval st a ;; rl <- asArr va ;; k <- eval_opt (eval st) ax ;;
+      match k with
+      | None | Some 0%Z | Some (-1)%Z => ok (VF (meanL (snd rl)))
+      | _ => err ValueError
+      end
+  | EIsInt a => va <- eval st a ;; match va with VI _ => ok (VB true) | _ => ok (VB false) end
+  | ENdim a => va <- eval st a ;; match va with VArr _ _ => ok (VI 1) | VMat _ _ _ => ok (VI 2) | _ => err TypeError end
   end.
 
 Inductive ctl := CNormal | CBreak | CContinue | CRet (vs : list value) | CErr (e : exc).
@@ -514,6 +576,23 @@ Fixpoint exec (s : stmt) (st : store) {struct s} : store * ctl :=
              | (_, CNormal) => (set st dst VNone, CNormal)    (* the callee fell off its end: None *)
              | (_, CBreak) | (_, CContinue) => (st, CErr TypeError)
              end)
+  | SStoreSlice x lo hi step e =>
+      try st (va <- get st x ;; rl <- asArr va ;;
+              l <- eval_opt (eval st) lo ;; h <- eval_opt (eval st) hi ;; s <- eval_opt (eval st) step ;;
+              let s := match s with None => 1%Z | Some v => v end in
+              if (s =? 0)%Z then err ValueError
+              else
+                let ps := slice_positions (length (snd rl)) l h s in
+                vv <- eval st e ;;
+                vs <- match vv with
+                      | VArr _ vl => if Nat.eqb (length vl) (length ps) then ok vl
+                                     else match vl with [z] => ok (map (fun _ => z) ps) | _ => err ValueError end
+                      | VF z => ok (map (fun _ => z) ps)
+                      | VI n => ok (map (fun _ => ofZ n) ps)
+                      | _ => err TypeError
+                      end ;;
+                ok (VArr (fst rl) (store_at (snd rl) ps vs)))
+          (fun v => (set st x v, CNormal))
   end.
 
 Inductive outcome := ORet (vs : list value) | OErr (e : exc).
@@ -540,5 +619,6 @@ Arguments VArr {F} _ _.
 Arguments VCrit {F} _.
 Arguments VUnbound {F}.
 Arguments VMat {F} _ _ _.
+Arguments VTw {F} _.
 Arguments ORet {F} _.
 Arguments OErr {F} _.
